@@ -16,70 +16,71 @@ package main
 // a refusal is a failed obligation.
 
 import (
-	"regexp"
 	"fmt"
 	"go/ast"
 	"go/constant"
 	"go/token"
 	"go/types"
+	"os"
+	"regexp"
 	"sort"
 	"strings"
 )
 
 type itr struct {
-	p         *pkgInfo
-	errs      []string
-	fresh     int
-	recv      string // receiver variable name ("" for plain functions)
-	recvTp    string // Lean type of the receiver
-	hasRes    bool
-	structs   map[string]bool     // struct types translated in this module
-	opaque    map[string]bool     // struct types kept opaque (fields no translated method touches)
-	maskNS    string              // namespace of the regenerated Mask methods
-	ns        string              // namespace of this module
-	externs   map[string]string   // "T.m" of methods kept uninterpreted -> Lean type of the function parameter
-	needExt   map[string][]string // translated function -> extern parameters it takes
-	extOwner  map[string]string   // extern parameter name -> "T.m"
-	tokens    map[string]bool     // struct types outside the module whose values only occur behind pointers: *T is a token
-	fieldExt  map[string]string   // "T.field" of function-typed fields kept uninterpreted -> extern parameter name
-	tokExt    map[string]string   // "T.member" of token objects (fields / methods read through a pointer) -> extern parameter name
-	ifaceExt  map[string]string   // interface method name -> extern parameter name (uninterpreted, first argument the value)
-	alias     map[string]ast.Expr // e := &<lvalue>: e stands for the lvalue
-	loopVar   string              // inside a loop body: the state variable the body function returns
-	inout     map[string][]int    // translated function -> indices of pointer parameters returned as results
-	retExtra  []string            // names of the in-out parameters of the function being translated
-	relVar    map[string]string   // rf (from rf, ok := f.(*RelationFilter)) -> variable holding the optional target
-	view      map[string][]string // struct -> the fields that are translated (a view of a larger struct)
-	loopExtra []string            // outer locals a loop body assigns: part of the loop state
-	castVar   map[string]string   // cached (from cached, ok := f.(*CachedFilter)) -> variable holding the optional value
-	effExt    map[string]string   // "T.method" of objects outside the module that change hidden state -> extern parameter name
-	usesEff   map[string]bool     // translated functions that thread the hidden state `ext`
-	curEff    bool                // the function being translated threads `ext`
-	pureFn    map[string]string   // package-level functions translated elsewhere as pure Lean functions
-	reslice   map[string]bool     // functions in which s[:hi] may extend into the hidden capacity
-	curFn     string
-	freeLoops bool // range loops also in functions without a receiver
-	curResT   []string
-	rangeOnce string
-	brkVar    string
-	worldExt  map[string]string // methods of the translated struct itself kept as state-threading externs
-	effFn     map[string]string // package-level functions (`toIds`, `ecs.TypeID`) kept as state-threading externs; object arguments are dropped
-	inject    map[string]string // concrete type -> injection into an interface-typed location (uninterpreted constructor)
-	assertExt map[string]string // `x.(*T)` for a translated struct T -> extern (none = the assertion panics)
-	earlyItems string           // inside a loop with early returns: the loop state without the recorded result
-	srcExt    map[string]string // calls identified by their source text (`q.world.closeQuery`) kept as state-threading externs writing through their first argument
-	dropSelf  bool              // a pointer to the struct being translated handed to an extern (`arch.Init(a, …)`) is dropped
-	selfRet   bool              // builder methods return their receiver: that result is dropped
+	p          *pkgInfo
+	errs       []string
+	fresh      int
+	recv       string // receiver variable name ("" for plain functions)
+	recvTp     string // Lean type of the receiver
+	hasRes     bool
+	structs    map[string]bool     // struct types translated in this module
+	opaque     map[string]bool     // struct types kept opaque (fields no translated method touches)
+	maskNS     string              // namespace of the regenerated Mask methods
+	ns         string              // namespace of this module
+	externs    map[string]string   // "T.m" of methods kept uninterpreted -> Lean type of the function parameter
+	needExt    map[string][]string // translated function -> extern parameters it takes
+	extOwner   map[string]string   // extern parameter name -> "T.m"
+	tokens     map[string]bool     // struct types outside the module whose values only occur behind pointers: *T is a token
+	fieldExt   map[string]string   // "T.field" of function-typed fields kept uninterpreted -> extern parameter name
+	tokExt     map[string]string   // "T.member" of token objects (fields / methods read through a pointer) -> extern parameter name
+	ifaceExt   map[string]string   // interface method name -> extern parameter name (uninterpreted, first argument the value)
+	alias      map[string]ast.Expr // e := &<lvalue>: e stands for the lvalue
+	loopVar    string              // inside a loop body: the state variable the body function returns
+	inout      map[string][]int    // translated function -> indices of pointer parameters returned as results
+	retExtra   []string            // names of the in-out parameters of the function being translated
+	relVar     map[string]string   // rf (from rf, ok := f.(*RelationFilter)) -> variable holding the optional target
+	view       map[string][]string // struct -> the fields that are translated (a view of a larger struct)
+	loopExtra  []string            // outer locals a loop body assigns: part of the loop state
+	castVar    map[string]string   // cached (from cached, ok := f.(*CachedFilter)) -> variable holding the optional value
+	effExt     map[string]string   // "T.method" of objects outside the module that change hidden state -> extern parameter name
+	usesEff    map[string]bool     // translated functions that thread the hidden state `ext`
+	curEff     bool                // the function being translated threads `ext`
+	pureFn     map[string]string   // package-level functions translated elsewhere as pure Lean functions
+	reslice    map[string]bool     // functions in which s[:hi] may extend into the hidden capacity
+	curFn      string
+	freeLoops  bool // range loops also in functions without a receiver
+	curResT    []string
+	rangeOnce  string
+	brkVar     string
+	worldExt   map[string]string // methods of the translated struct itself kept as state-threading externs
+	effFn      map[string]string // package-level functions (`toIds`, `ecs.TypeID`) kept as state-threading externs; object arguments are dropped
+	inject     map[string]string // concrete type -> injection into an interface-typed location (uninterpreted constructor)
+	assertExt  map[string]string // `x.(*T)` for a translated struct T -> extern (none = the assertion panics)
+	earlyItems string            // inside a loop with early returns: the loop state without the recorded result
+	srcExt     map[string]string // calls identified by their source text (`q.world.closeQuery`) kept as state-threading externs writing through their first argument
+	dropSelf   bool              // a pointer to the struct being translated handed to an extern (`arch.Init(a, …)`) is dropped
+	selfRet    bool              // builder methods return their receiver: that result is dropped
 	curSelfRet bool
-	reflectIf string            // extern that stands for an `if` over reflect calls assigning one Boolean
-	tokField  map[string]string // `tok.field.Method(args)` on an object outside the module -> extern (tok.* = read, eff.* = write)
-	shadow    map[string]bool
-	joinIf    map[string]bool   // functions whose non-leaving if statements are joined
-	ptrOption bool              // *ID and *Mask are optional values (event code)
-	effIface  map[string]string // interface methods that act on the hidden state -> extern
-	nilChecks map[string]bool   // functions in which a member access through a nil token pointer panics
-	effInout  map[string][]int  // effectful externs: argument positions passed by pointer and written by the callee
-	aliasCall map[string]string // "T.method" of a translated struct that returns &recv.field -> field
+	reflectIf  string            // extern that stands for an `if` over reflect calls assigning one Boolean
+	tokField   map[string]string // `tok.field.Method(args)` on an object outside the module -> extern (tok.* = read, eff.* = write)
+	shadow     map[string]bool
+	joinIf     map[string]bool   // functions whose non-leaving if statements are joined
+	ptrOption  bool              // *ID and *Mask are optional values (event code)
+	effIface   map[string]string // interface methods that act on the hidden state -> extern
+	nilChecks  map[string]bool   // functions in which a member access through a nil token pointer panics
+	effInout   map[string][]int  // effectful externs: argument positions passed by pointer and written by the callee
+	aliasCall  map[string]string // "T.method" of a translated struct that returns &recv.field -> field
 }
 
 // stateful: an extern that reads an object outside the module; inside a function that threads the hidden
@@ -1058,6 +1059,17 @@ func (t *itr) call(x *ast.CallExpr, pre *[]string, wantValue bool) string {
 		// an uninterpreted function of its arguments (not of the receiver's state)
 		return fmt.Sprintf("(%s %s)", sel.Sel.Name+"F", strings.Join(args, " "))
 	}
+	if tn == "Subscription" && len(args) == 1 && (sel.Sel.Name == "Contains" || sel.Sel.Name == "ContainsAny") {
+		// ecs/event/event.go: `(bits & s) == bits` and `(bits & s) != 0` on the uint8 bit set (written out here; the
+		// two one-line bodies are compared with the source by the facts check `subscriptionBodies`)
+		if err := t.checkSubscriptionBodies(); err != "" {
+			return t.fail("%s", err)
+		}
+		if sel.Sel.Name == "Contains" {
+			return fmt.Sprintf("((%s &&& %s) == %s)", args[0], recvVal, args[0])
+		}
+		return fmt.Sprintf("((%s &&& %s) != 0#8)", args[0], recvVal)
+	}
 	if !t.structs[tn] {
 		return t.fail("method call on a type outside this module: %s", tn)
 	}
@@ -1090,14 +1102,22 @@ func (t *itr) call(x *ast.CallExpr, pre *[]string, wantValue bool) string {
 	}
 	if calleeEff {
 		// the callee threads the hidden state too: hand it over and take it back
-		if len(t.inout[tn+"."+sel.Sel.Name]) > 0 {
-			return t.fail("unsupported: in-out parameters of a state-threading callee %s", tn+"."+sel.Sel.Name)
-		}
 		if _, ok := fd.Recv.List[0].Type.(*ast.StarExpr); !ok {
 			return t.fail("unsupported: value receiver of a state-threading callee %s", tn+"."+sel.Sel.Name)
 		}
 		callE := fmt.Sprintf("%s.%s%s %s %s ext", tn, sel.Sel.Name, extArgs, recvVal, strings.Join(args, " "))
 		nr := t.tmp("o")
+		if io := t.inout[tn+"."+sel.Sel.Name]; len(io) > 0 {
+			// the pointer parameter the callee writes through comes back between the receiver and the hidden state
+			if len(io) != 1 || !hasRes {
+				return t.fail("unsupported: in-out shape of a state-threading callee %s", tn+"."+sel.Sel.Name)
+			}
+			pv, rv := t.tmp("p"), t.tmp("r")
+			*pre = append(*pre, fmt.Sprintf("let (%s, %s, ext, %s) ← %s", nr, pv, rv, callE))
+			*pre = append(*pre, t.assignPath(sel.X, nr, nil)...)
+			*pre = append(*pre, t.assignPath(x.Args[io[0]], pv, nil)...)
+			return rv
+		}
 		if hasRes {
 			rv := t.tmp("r")
 			*pre = append(*pre, fmt.Sprintf("let (%s, ext, %s) ← %s", nr, rv, callE))
@@ -2985,7 +3005,7 @@ func genPools(repo string, tiny bool) (string, []string) {
 	for _, f := range []string{"Query.countEntities", "Query.Count", "Query.entityAt", "Query.EntityAt", "World.exchangeArch", "World.exchangeBatchNoNotify", "World.setRelationArch", "World.setRelationBatchNoNotify"} {
 		t.joinIf[f] = true
 	}
-	for _, f := range []string{"World.exchangeArch", "World.exchangeBatchNoNotify", "World.setRelationArch", "World.setRelationBatchNoNotify", "World.newEntities", "World.newEntityTarget", "World.copyTo", "World.closeQuery", "World.assign", "World.notifyQuery"} {
+	for _, f := range []string{"World.exchangeArch", "World.exchangeBatchNoNotify", "World.setRelationArch", "World.setRelationBatchNoNotify", "World.newEntities", "World.newEntityTarget", "World.copyTo", "World.closeQuery", "World.assign", "World.notifyQuery", "World.exchangeBatch", "World.setRelationBatch"} {
 		t.usesEff[f] = true
 		t.joinIf[f] = true
 	}
@@ -3007,7 +3027,7 @@ func genPools(repo string, tiny bool) (string, []string) {
 	t.structs["EntityEvent"] = true
 	t.effExt["archetype.Remove"] = "archRemoveF"
 	t.nilChecks = map[string]bool{}
-	for _, f := range []string{"World.notifyQuery", "World.assign", "World.closeQuery", "World.copyTo", "World.newEntityTarget", "World.newEntities", "World.exchangeArch", "World.exchangeBatchNoNotify", "World.setRelationArch", "World.setRelationBatchNoNotify", "Query.setArchetype", "Query.stepArchetype", "Query.nextArchetypeSimple", "Query.nextArchetypeFiltered", "Query.nextArchetypeBatch", "Query.nextBatch", "Query.nextNode", "Query.nextNodeOrArchetype", "Query.nextArchetype", "Query.Next",
+	for _, f := range []string{"World.exchangeBatch", "World.setRelationBatch", "World.notifyQuery", "World.assign", "World.closeQuery", "World.copyTo", "World.newEntityTarget", "World.newEntities", "World.exchangeArch", "World.exchangeBatchNoNotify", "World.setRelationArch", "World.setRelationBatchNoNotify", "Query.setArchetype", "Query.stepArchetype", "Query.nextArchetypeSimple", "Query.nextArchetypeFiltered", "Query.nextArchetypeBatch", "Query.nextBatch", "Query.nextNode", "Query.nextNodeOrArchetype", "Query.nextArchetype", "Query.Next",
 		"Query.countEntities", "Query.Count", "Query.entityAt", "Query.EntityAt", "World.findArchetypeSlow", "World.findOrCreateArchetypeSlow", "World.findOrCreateArchetype", "World.NewEntity", "World.notifyExchange", "World.exchange", "World.newEntitiesNoNotify", "World.removeEntities", "World.getExchangeMask", "World.exchangeNoNotify", "World.createArchetype", "World.setRelation", "World.RemoveEntity", "World.removeArchetype", "World.cleanupArchetype", "World.cleanupArchetypes", "World.createEntity", "World.createEntities", "World.Has", "World.HasUnchecked", "World.Mask",
 		"World.relationError", "World.checkRelation", "World.getRelation", "World.getRelationUnchecked"} {
 		t.nilChecks[f] = true
@@ -3024,7 +3044,7 @@ func genPools(repo string, tiny bool) (string, []string) {
 	}
 	t.view = map[string][]string{"World": {"nodePointers", "filterCache", "locks", "entityPool", "resources", "entities", "targetEntities", "archetypes", "nodes", "relationNodes", "listener", "archetypeData", "registry", "config"},
 		"Config": {"CapacityIncrement", "RelationCapacityIncrement"},
-		"Query": {"nodeArchetypes", "nodes", "filter", "access", "archetype", "archetypes", "entityIndex", "entityIndexMax", "archIndex", "nodeIndex", "count", "lockBit", "isFiltered", "isBatch"}}
+		"Query":  {"nodeArchetypes", "nodes", "filter", "access", "archetype", "archetypes", "entityIndex", "entityIndexMax", "archIndex", "nodeIndex", "count", "lockBit", "isFiltered", "isBatch"}}
 	t.structs["World"] = true
 	t.tokExt = map[string]string{"archetype.Mask": "archMaskF", "archetype.RelationTarget": "archTargetF", "archetype.HasRelation": "archHasRelationF"}
 	t.ifaceExt = map[string]string{"Matches": "matchesF", "Len": "archsLenF", "Get": "archsGetF", "Subscriptions": "lstSubsF", "Components": "lstCompsF"}
@@ -3125,7 +3145,7 @@ func genPools(repo string, tiny bool) (string, []string) {
 		"Entity.IsZero", "World.removeArchetype", "World.cleanupArchetype", "World.cleanupArchetypes", "World.RemoveEntity",
 		"World.createArchetype", "World.setRelation", "World.getExchangeMask", "World.exchangeNoNotify", "World.removeEntities", "World.newEntitiesNoNotify", "World.notifyExchange", "World.exchange", "World.NewEntity",
 		"World.findArchetypeSlow", "World.findOrCreateArchetypeSlow", "World.findOrCreateArchetype",
-		"batchArchetypes.Get", "batchArchetypes.Len", "batchArchetypes.Add", "World.exchangeArch", "World.exchangeBatchNoNotify", "World.setRelationArch", "World.setRelationBatchNoNotify", "World.newEntities", "World.newEntityTarget", "World.copyTo", "World.notifyQuery", "World.closeQuery", "World.assign", "Query.countEntities", "Query.Count", "Query.entityAt", "Query.EntityAt",
+		"batchArchetypes.Get", "batchArchetypes.Len", "batchArchetypes.Add", "World.exchangeArch", "World.exchangeBatchNoNotify", "World.setRelationArch", "World.setRelationBatchNoNotify", "World.newEntities", "World.newEntityTarget", "World.copyTo", "World.notifyQuery", "World.exchangeBatch", "World.setRelationBatch", "World.closeQuery", "World.assign", "Query.countEntities", "Query.Count", "Query.entityAt", "Query.EntityAt",
 		"Query.checkNext", "Query.setArchetype", "Query.stepArchetype", "Query.nextArchetypeSimple", "Query.nextArchetypeFiltered",
 		"Query.nextArchetypeBatch", "Query.nextBatch", "Query.nextNode", "Query.nextNodeOrArchetype", "Query.nextArchetype", "Query.Next",
 	}
@@ -3289,24 +3309,24 @@ func genGeneric(repo string, tiny bool) (string, []string) {
 	t.inject = map[string]string{"Mask": "ofMaskF", "MaskFilter": "ofMaskFilterF", "CachedFilter": "ofCachedF"}
 	t.reflectIf = "isRelationTypeF"
 	t.externs = map[string]string{
-		"eff.toIds":          "Ext → GoSlice GoAny → Ext × GoSlice (BitVec 8)",
-		"eff.toMask":         "Ext → GoSlice GoAny → Ext × " + mns + ".Mask",
-		"eff.toMaskOptional": "Ext → GoSlice (BitVec 8) → GoSlice GoAny → Ext × " + mns + ".Mask",
-		"eff.typeID":         "Ext → GoAny → Ext × BitVec 8",
-		"eff.cacheRegister":  "Ext → GoAny → Ext × CachedFilter",
-		"eff.cacheUnreg":     "Ext → CachedFilter → Ext × GoAny",
-		"pure.ofMask":        mns + ".Mask → GoAny",
-		"pure.ofMaskFilter":  mns + ".MaskFilter → GoAny",
-		"pure.ofCached":      "CachedFilter → GoAny",
-		"pure.relFilter":     mns + ".MaskFilter → Entity → GoAny",
-		"pure.isRelationType": "GoAny → Bool",
+		"eff.toIds":                "Ext → GoSlice GoAny → Ext × GoSlice (BitVec 8)",
+		"eff.toMask":               "Ext → GoSlice GoAny → Ext × " + mns + ".Mask",
+		"eff.toMaskOptional":       "Ext → GoSlice (BitVec 8) → GoSlice GoAny → Ext × " + mns + ".Mask",
+		"eff.typeID":               "Ext → GoAny → Ext × BitVec 8",
+		"eff.cacheRegister":        "Ext → GoAny → Ext × CachedFilter",
+		"eff.cacheUnreg":           "Ext → CachedFilter → Ext × GoAny",
+		"pure.ofMask":              mns + ".Mask → GoAny",
+		"pure.ofMaskFilter":        mns + ".MaskFilter → GoAny",
+		"pure.ofCached":            "CachedFilter → GoAny",
+		"pure.relFilter":           mns + ".MaskFilter → Entity → GoAny",
+		"pure.isRelationType":      "GoAny → Bool",
 		"assert.CachedFilterValue": "GoAny → Option CachedFilter",
-		"eff.relExchange":      "Ext → Entity → GoSlice (BitVec 8) → GoSlice (BitVec 8) → BitVec 8 → Entity → Ext × Unit",
-		"eff.worldAdd":         "Ext → Entity → GoSlice (BitVec 8) → Ext × Unit",
-		"eff.worldRemove":      "Ext → Entity → GoSlice (BitVec 8) → Ext × Unit",
-		"eff.worldExchange":    "Ext → Entity → GoSlice (BitVec 8) → GoSlice (BitVec 8) → Ext × Unit",
-		"eff.relExchangeBatch": "Ext → GoAny → GoSlice (BitVec 8) → GoSlice (BitVec 8) → BitVec 8 → Entity → Ext × Int",
-		"eff.batchExchange":    "Ext → GoAny → GoSlice (BitVec 8) → GoSlice (BitVec 8) → Ext × Int",
+		"eff.relExchange":          "Ext → Entity → GoSlice (BitVec 8) → GoSlice (BitVec 8) → BitVec 8 → Entity → Ext × Unit",
+		"eff.worldAdd":             "Ext → Entity → GoSlice (BitVec 8) → Ext × Unit",
+		"eff.worldRemove":          "Ext → Entity → GoSlice (BitVec 8) → Ext × Unit",
+		"eff.worldExchange":        "Ext → Entity → GoSlice (BitVec 8) → GoSlice (BitVec 8) → Ext × Unit",
+		"eff.relExchangeBatch":     "Ext → GoAny → GoSlice (BitVec 8) → GoSlice (BitVec 8) → BitVec 8 → Entity → Ext × Int",
+		"eff.batchExchange":        "Ext → GoAny → GoSlice (BitVec 8) → GoSlice (BitVec 8) → Ext × Int",
 	}
 	t.extOwner = map[string]string{"toIdsF": "eff.toIds", "toMaskF": "eff.toMask", "toMaskOptionalF": "eff.toMaskOptional", "typeIDF": "eff.typeID",
 		"cacheRegisterF": "eff.cacheRegister", "cacheUnregisterF": "eff.cacheUnreg", "ofMaskF": "pure.ofMask", "ofMaskFilterF": "pure.ofMaskFilter",
@@ -3395,19 +3415,19 @@ func genNode(repo string, tiny bool) (string, []string) {
 	t.externs = map[string]string{}
 	t.extOwner = map[string]string{}
 	for k, v := range map[string][2]string{
-		"pagedGetF":      {"tok.pagedGet", "Nat → BitVec 32 → Option Nat"},
-		"pagedLenF":      {"tok.pagedLen", "Nat → BitVec 32"},
-		"pagedAddF":      {"eff.pagedAdd", "Ext → Nat → Ext × Unit"},
-		"archActivateF":  {"eff.archActivate", "Ext → Option Nat → Entity → BitVec 32 → Ext × Unit"},
-		"archInitF":      {"eff.archInit", "Ext → Option Nat → Option Nat → BitVec 32 → Bool → Int → Entity → Ext × Unit"},
+		"pagedGetF":       {"tok.pagedGet", "Nat → BitVec 32 → Option Nat"},
+		"pagedLenF":       {"tok.pagedLen", "Nat → BitVec 32"},
+		"pagedAddF":       {"eff.pagedAdd", "Ext → Nat → Ext × Unit"},
+		"archActivateF":   {"eff.archActivate", "Ext → Option Nat → Entity → BitVec 32 → Ext × Unit"},
+		"archInitF":       {"eff.archInit", "Ext → Option Nat → Option Nat → BitVec 32 → Bool → Int → Entity → Ext × Unit"},
 		"archDeactivateF": {"eff.archDeactivate", "Ext → Option Nat → Ext × Unit"},
-		"archResetF":     {"eff.archReset", "Ext → Option Nat → Ext × Unit"},
-		"archExtendF":    {"eff.archExtendLayouts", "Ext → Option Nat → Int → Ext × Unit"},
-		"cacheRemoveF":   {"eff.cacheRemove", "Ext → Option Nat → Option Nat → Ext × Unit"},
-		"archActiveF":    {"tok.archActive", "Option Nat → Bool"},
-		"archTargetF":    {"tok.Target", "Option Nat → Entity"},
-		"archIndexF":     {"tok.archIndex", "Option Nat → BitVec 32"},
-		"matchesF":       {"iface.Matches", "GoAny → " + mns + ".Mask → Bool"},
+		"archResetF":      {"eff.archReset", "Ext → Option Nat → Ext × Unit"},
+		"archExtendF":     {"eff.archExtendLayouts", "Ext → Option Nat → Int → Ext × Unit"},
+		"cacheRemoveF":    {"eff.cacheRemove", "Ext → Option Nat → Option Nat → Ext × Unit"},
+		"archActiveF":     {"tok.archActive", "Option Nat → Bool"},
+		"archTargetF":     {"tok.Target", "Option Nat → Entity"},
+		"archIndexF":      {"tok.archIndex", "Option Nat → BitVec 32"},
+		"matchesF":        {"iface.Matches", "GoAny → " + mns + ".Mask → Bool"},
 	} {
 		t.extOwner[k] = v[0]
 		t.externs[v[0]] = v[1]
@@ -3461,4 +3481,26 @@ func genNode(repo string, tiny bool) (string, []string) {
 	}
 	fmt.Fprintf(&sb, "end %s\n", ns)
 	return sb.String(), t.errs
+}
+
+// checkSubscriptionBodies: the two methods of event.Subscription written out inline by the translator must still have the
+// bodies they had (ecs/event/event.go); otherwise the translation is refused.
+func (t *itr) checkSubscriptionBodies() string {
+	src, err := os.ReadFile("ecs/event/event.go")
+	if err != nil {
+		src, err = os.ReadFile("event/event.go")
+	}
+	if err != nil {
+		return "cannot read ecs/event/event.go: " + err.Error()
+	}
+	norm := strings.Join(strings.Fields(string(src)), " ")
+	for _, want := range []string{
+		"func (s Subscription) Contains(bits Subscription) bool { return (bits & s) == bits }",
+		"func (s Subscription) ContainsAny(bits Subscription) bool { return (bits & s) != 0 }",
+	} {
+		if !strings.Contains(norm, want) {
+			return "event.Subscription method changed: expected `" + want + "`"
+		}
+	}
+	return ""
 }
